@@ -9,6 +9,7 @@ CONSTANTS
   MaxKids = 3
   MaxChunks = 0
   MinMaxPropagation = TRUE
+  StreamsAwaited = TRUE
 VIEW view
 INVARIANT TypeOK
 INVARIANT PointerIsScope
